@@ -410,7 +410,11 @@ def post_dec(ret, token, a, k):
     n_floor = sum(1 for t in rec["truth"].values() if t[1] is None)
     if n_floor:
         ctx.ambiguous(n_floor)
-    tol, dur_tol = rec["tol"], None
+    # onsets: the parameters are single precision, and so is the sum that rebuilds the onsets from them - but the sum is taken
+    # in double precision, so a decoded onset is within a few single-precision spacings of the performed one (4e-7 relative
+    # is about three spacings); durations go through 2**articulation and keep the wider tolerance
+    tol = 4e-7 * max(1.0, rec["tol"] / 2e-5)
+    dur_tol = {sid: rec["tol"] for sid in rec["truth"]}
     if rec["norm"] == "beat_period_standardized":
         # beat period = standardized*std + mean in float32: its rounding is relative to |mean| + |standardized*std|, not to
         # the beat period itself (cancellation when a beat period is far below the mean); that much is single-precision rounding
@@ -420,7 +424,6 @@ def post_dec(ret, token, a, k):
         if np.all(np.isfinite(mag)) and len(mag):
             ons = [v["onset"] for v in rec["s_info"].values()]
             tol = tol + 2.5e-7 * float(mag.max()) * (max(ons) - min(ons))
-            dur_tol = {}
             for i, sid in enumerate(rec["ids"]):
                 d = rec["truth"][sid][1]
                 if d is not None:
@@ -472,6 +475,8 @@ BUCKETS = ["n4n", "n4n", "extras", "extras", "unison", "deadpan", "dangling", "l
 def plan(tier, seed):
     n = 960 if tier == "quick" else 12000
     items = [["gen", BUCKETS[i % len(BUCKETS)], i] for i in range(n)]
+    # whole pieces (a few thousand notes, several minutes): rounding that accumulates note by note shows only there
+    items += [["gen", "long", i] for i in range(3 if tier == "quick" else 24)]
     if tier == "thorough":
         items += [["fixture", f] for f in ("Chopin_op10_no3_p01.match", "mozart_k265_var1.match", "test_fuer_elise.match")]
     return items
@@ -498,6 +503,9 @@ def bucket_case(rng, bucket, tier):
     if bucket == "tiny":
         return W.gen_case(rng, 0.5, mode=rng.choice(["rubato", "jumpy"]), feats=rng.choice([[], ["chords"], ["graces"], ["pickup"]]),
                           n_measures=1, divs=rng.choice([1, 2]), extras=rng.choice([None, {"delete": 0.5}, {"delete": 1.0}]))
+    if bucket == "long":
+        return W.gen_case(rng, 1, mode=rng.choice(["rubato", "jumpy"]), n_measures=rng.choice([250, 400]), feats=["chords", "multivoice"],
+                          extras=rng.choice([None, {"delete": 0.02, "insert": 0.02}]))
     if bucket == "hires":
         return W.gen_case(rng, size, mode=rng.choice(["rubato", "jumpy"]), divs=rng.choice([480, 960]),
                           feats=["chords", "multivoice", "tuplets", "graces", "pickup"])
